@@ -10,6 +10,14 @@ BASELINE = json.load(open('/root/.vp/BASELINE.json'))['cmd'].replace('--junitxml
 
 # id -> (category, technique, text, note, design_ref)
 TABLE = {
+ 'C02': ('exploration',
+         'bounded exhaustive enumeration of fold-balanced designs (all row orders of small designs, all fold relabelings, all channel permutations, label types, precision forms) on the real crossnobis / poisson_cv code, judged by the double-loop definition over ordered fold pairs',
+         'Fold-balanced designs K,M in {2,3} (thorough 4) x R in {1,2} x P in {1,2,3}: all n! row orders for <= 6 rows (structured orders and all adjacent swaps above), ALL M! fold relabelings x ALL P! channel permutations (precision permuted alike), int / string / one-character labels, precision none / one matrix / one per fold, remove_mean, explicit and default fold descriptors, a many-folds family (10-12 folds); values from complete small alphabets and fixed fills. Each unordered label pair must equal the mean over ordered pairs of distinct folds of the between-fold products (poisson analogue on prior-regularised rates); invariances are checked variant against parent; scaling one fold must act linearly (no within-fold product) and perturbing any single fold must change the result (every fold contributes).',
+         'reference in mc/ref/c02_ref.py; the k-th precision of a per-fold list belongs to fold k (k-th occurrence)', '4/C02'),
+ 'C20': ('exploration',
+         'bounded exhaustive enumeration of external name / file structures (all BIDS entity subsets, all Meadows file shapes and stimulus orders, all small epochs shapes, event tables, run compositions) through the real importers, judged by independent builders',
+         'BIDS: every subset of {ses,task,run,space,desc} x {raw, fmriprep derivative} x 5 suffix/extension types x 2 spellings - parse, identity rebuild and the four look-ups must change only the asked entities (checked against marker files in a private scratch tree); Meadows: 3 file-name shapes x n_stim 3-4 x every stimulus order x sort on/off written by the harness and reloaded; MNE: EpochsArray for every shape in {1,2,3}^3 and every event-code vector; HRF design matrices for every assignment of onsets on a grid to 1-3 conditions x TR x n_vols x confound tables (one range-normalised centred column per condition, flagged confounds, dof = volumes - columns); SPM: every composition of <= 8 scans into 1-3 runs x filter bases - output = Y - X0 X0\'Y per run.',
+         'references in mc/ref/c20_ref.py; SpmGlm driven through a patched loadmat like the repository tests; nibabel absent (mocks)', '4/C20'),
  'C16': ('model_checking',
          'explicit-state exploration of file histories (object menu x file type x target x prior file state x overwrite) through the real save / load API, judged by field-wise equality',
          'Every object of a finite menu - all distinct RDMs / Dataset / TemporalDataset states reached at depth <= 1 (thorough 2) of the C10 / C11 operation searches, descriptor-type variants (int, float, str, non-ASCII str, lists, ndarrays, matrix-valued descriptor, absent measure, NaN/inf), the model classes, Results of eval_fixed / eval_bootstrap_rdm / crossval - is saved and reloaded as hdf5 and pkl, by path and by open handle, onto a fresh file and onto a file already holding another object, with overwrite off and on; the reloaded object must be field-wise equal (arrays bit-identical, same descriptor keys and values, same classes/names/predictions, same test outputs), the in-memory object keeps its fingerprint, an existing hdf5 path without overwrite is refused and left untouched.',
